@@ -30,6 +30,13 @@ def _is_assign(n):
     return None
 
 
+def _l1_this_field(n):
+    n = n.strip_all()
+    if n.k == "MemberExpr" and n.decl and n.decl.get("k") == "field" and (not n.c or n.c[0].strip_all().k == "CXXThisExpr"):
+        return n.decl["n"]
+    return None
+
+
 def field_writes(f, flow, fields):
     """nodes that write storage rooted at this-><one of fields> : [(node, field)]"""
     out = []
@@ -148,6 +155,49 @@ def rule_L1(prog, fixture=False):
                         if all(any(_lock_false(c, p, flag, prog) for fact in g.facts_at(wn) if not fact.belief
                                    for (c, p) in atoms_of(fact.cond, fact.pol)) for (wn, _) in gw):
                             callee_protected.add(n.id)
+        # copy in / work / copy out:  auto w = _w; ... w[i] = ...; ... _w = w;   the assignment back stores what the local holds -
+        # the writes that matter are those of the local, the hand-back of an untouched copy changes nothing
+        W2 = []
+        for (n, fld) in W:
+            lhs = _is_assign(n)
+            rhs = None
+            if lhs is not None and _l1_this_field(lhs) == fld:
+                if n.k in ("BinaryOperator",) and n.op == "=" and len(n.c) == 2:
+                    rhs = n.c[1]
+                elif n.k == "CXXOperatorCallExpr" and n.op == "=" and len(n.c) >= 3:
+                    rhs = n.c[2]
+            r0 = rhs.strip_all() if rhs is not None else None
+            while r0 is not None and r0.k in ("CallExpr",) and r0.callee and r0.callee.get("qn") in ("std::move",) and r0.call_args():
+                r0 = r0.call_args()[0].strip_all()
+            vd = None
+            if r0 is not None and r0.k == "DeclRefExpr" and r0.decl and r0.decl.get("k") == "local":
+                for v in f.walk():
+                    if v.k == "VarDecl" and v.decl and v.decl.get("id") == r0.decl["id"] and v.c and not (v.type or "").rstrip().endswith("&"):
+                        i0 = v.c[0].strip_all()
+                        while i0.k in ("CXXConstructExpr", "MaterializeTemporaryExpr", "CXXBindTemporaryExpr") and len(i0.c) == 1:
+                            i0 = i0.c[0].strip_all()
+                        if _l1_this_field(i0) == fld:
+                            vd = v
+            if vd is None:
+                W2.append((n, fld))
+                continue
+            lname = vd.decl["n"]
+            for x in f.walk():
+                l2 = _is_assign(x)
+                if l2 is not None and x.id != n.id:
+                    t0 = l2.strip_all()
+                    if t0.k == "DeclRefExpr" and t0.decl and t0.decl.get("id") == vd.decl["id"]:
+                        W2.append((x, fld))
+                    elif any(r == ("local", lname) for r in flow.root(l2)) and not (t0.k == "DeclRefExpr"):
+                        W2.append((x, fld))
+                elif x.is_call() and x.callee:
+                    pm = x.callee.get("pm", [])
+                    for i, a in enumerate(x.call_args()):
+                        a0 = a.strip_all()
+                        if (pm[i] if i < len(pm) else "val") in ("ref", "ptr") and a0.k == "DeclRefExpr" and a0.decl and a0.decl.get("id") == vd.decl["id"] \
+                                and not (a.type or "").startswith("const "):
+                            W2.append((x, fld))
+        W = W2
         if not W:
             res.add(base + ":lock", UNMODELLED, where, f.short, "no write of %s found in process()" % "/".join(fields), func=f.name)
             continue
@@ -344,10 +394,18 @@ def _is_field(n, name):
     n = n.strip_all()
     if isinstance(name, tuple):
         return n.k == "DeclRefExpr" and n.decl and n.decl.get("id") == name[1]
+    if n.k == "DeclRefExpr" and n.decl and n.decl.get("k") == "local" and (n.decl.get("dt") or "").startswith("const "):
+        # const real_t max_gain = agc.max_gain;  - a read-only name for the member
+        from .ir import _single_def
+        d = _single_def(n)
+        if d is not None:
+            d = d.strip_all()
+            return d.k == "MemberExpr" and d.decl and d.decl.get("k") == "field" and d.decl.get("n") == name
+        return False
     return n.k == "MemberExpr" and n.decl and n.decl.get("k") == "field" and n.decl.get("n") == name
 
 
-def _find_clamps(f, gain, ceil):
+def _find_clamps(f, gain, ceil, _depth=0):
     """statements that enforce gain <= ceil:  if (gain > ceil) gain = ceil;   or   gain = std::min(gain, ceil);"""
     out = []
     for n in f.walk():
@@ -384,6 +442,37 @@ def _find_clamps(f, gain, ceil):
                     out.append(n)
         elif n.is_call() and n.callee and n.callee.get("usr") in _L2_CLAMPERS and not isinstance(gain, tuple) and n.callee.get("usr") != f.usr:
             out.append(n)         # _clamp_gain(agc): a helper that does nothing to the gain but clamp it
+        elif n.is_call() and n.callee and n.callee.get("repo") and _L2_PROG is not None and n.callee.get("usr") != f.usr and _depth < 2:
+            # _update_gain(g, err, ..., agc.max_gain): the state goes in by reference, the ceiling by value, and inside the helper
+            # the clamp of the one against the other is the last thing that happens to the state on every path
+            g = _L2_PROG.functions.get(n.callee.get("usr"))
+            args = n.call_args()
+            pm = n.callee.get("pm", [])
+            if g is None or len(g.params) != len(args) or not g.blocks:
+                continue
+            gi = [i for i, a in enumerate(args) if (pm[i] if i < len(pm) else "val") in ("ref", "ptr") and _is_field(a, gain)]
+            ci = [j for j, a in enumerate(args) if _is_field(a, ceil)]
+            if not gi or not ci:
+                continue
+            pg = ("parm", g.params[gi[0]]["id"], g.params[gi[0]].get("n"))
+            pc = ("parm", g.params[ci[0]]["id"], g.params[ci[0]].get("n"))
+            cl = _find_clamps(g, pg, pc, _depth + 1)
+            cl_ids = {x.id for c in cl for x in c.walk()}
+            cnodes = [(c.role("cond") if c.k == "IfStmt" else c) for c in cl]
+            last = [c for c in cnodes if c is not None and g.block_of(c) is not None and g.block_dominates(g.block_of(c)[0], g.exit)]
+            if not last:
+                continue
+            writes = [w for w in g.walk() if w.id not in cl_ids and w.k in ("BinaryOperator", "CompoundAssignOperator") and w.op and w.op.endswith("=")
+                      and w.op not in ("==", "!=", "<=", ">=") and w.c and _is_field(w.c[0], pg)]
+            def not_after(w, c):
+                lw, lc = g.block_of(w), g.block_of(c)
+                if lw is None or lc is None:
+                    return False
+                if lw[0] == lc[0]:
+                    return lw[1] < lc[1]
+                return lw[0] not in g.reachable_from_succs(lc[0])
+            if all(any(not_after(w, c) for c in last) for w in writes):
+                out.append(n)
     return out
 
 
